@@ -182,7 +182,7 @@ def hvsr_relations(run, h):
             if not np.allclose(sa, sb, rtol=1e-9):
                 run.violation("hvsr:periodic-180", f"single azimuth {a} and {a + 180} give different curves", dict(kind="hvsr-rel", a=a))
             run.case(("sa", r_, a))
-        az_list = [0.0, 30.0, 60.0, 90.0, 120.0, 150.0]
+        az_list = [0.0, 30.0, 60.0, 90.0, 120.0, 150.0] if r_ % 2 == 0 else [37.0, 37.25, 37.5, 127.3, 127.9, 179.5]
         azi = proc([rec], h.HvsrAzimuthalProcessingSettings(azimuths_in_degrees=az_list, **kw))
         stack = [proc([rec], h.HvsrTraditionalSingleAzimuthProcessingSettings(azimuth_in_degrees=a, **kw)).amplitude for a in az_list]
         for a, x, y in zip(az_list, azi.hvsrs, stack):
